@@ -7,7 +7,8 @@ export GOFLAGS=-mod=mod GOPROXY=off GOSUMDB=off GOTOOLCHAIN=local
 M=$(realpath "$1"); TIER=$2; shift 2
 cd "$(dirname "$0")/.."
 R=$(mktemp -d /tmp/brepo.XXXXXX)
-trap 'rm -rf "$R"' EXIT
+prune_bins() { for d in "$@"; do t=$(python3 -c "import hashlib,os,sys;print(hashlib.sha256(os.path.realpath(sys.argv[1]).encode()).hexdigest()[:8])" "$d"); rm -f .bin/*_$t; done; }
+trap 'prune_bins "$R"; rm -rf "$R"' EXIT
 rsync -a --exclude .git /repo/ "$R/"
 (cd "$R" && patch -p1 -s < "$M/patch.diff") || { echo "RESULT patch-does-not-apply"; exit 2; }
 (cd "$R" && go build ./... ) || { echo "RESULT does-not-compile"; exit 2; }
